@@ -109,6 +109,8 @@ def run(chk):
                     if cond == 'dirichlet':
                         variants += [(1, None, r) for r in rets]
                         variants += [(2, None, 'vector'), (2, 1, 'vector')]
+                        # a length-one array must behave like the scalar it holds, also when several components are selected
+                        variants += [(2, None, 'len1'), (3, slice(0, 2), 'len1')]
                         if thorough:
                             variants += [(2, slice(1, 2), r) for r in rets] + [(3, slice(0, 2), 'vector')]
                     else:
